@@ -34,12 +34,15 @@ MODELLED_NOT_VERIFIED = [
     "are judged by the oracle only; the model is of the default options",
 ]
 EXPLANATION = ("Theorems (Props/C20.lean, about the definitions drv_c20 runs; every loop is a total function without fuel): tokenizer_progress, "
-               "token_count_bounded; newick_statement_progress, newick_never_internal, newick_balanced, nesting_sub_safe, skipSemis_leaves_token, "
-               "newick_steps_linear; ok_dims, phylip_never_internal (no index out of range, incl. taxon_namespace[paged_row]), phylip_loops_bounded; "
-               "fasta_never_internal, fasta_rows_nonempty; reader_loop_rule, reader_loop_rounds_linear, nexus_never_internal (all NEXUS block and "
-               "statement loops incl. CHARSET position lists and continuous matrices), nexus_matrix_dims; eof_is_parse_error: every truncation of "
-               "every text is accepted or a parse error in all four reader models.  The 'no AttributeError/IndexError' clause for the "
-               "implementation itself is evaluated by the oracle.")
+               "token_count_bounded; newick_statement_progress, newick_never_internal (loop progress), newick_balanced, newick_inv_initial, "
+               "nesting_sub_safe, skipSemis_leaves_token; ok_dims (final guards only), phylip_never_internal, phylip_loops_bounded; "
+               "fasta_never_internal, fasta_rows_nonempty; reader_loop_rule, reader_loop_exit_rule, nexus_never_internal (every NEXUS loop makes "
+               "progress), statement_needs_semicolon + taxa_block_needs_end (a DIMENSIONS/TAXLABELS/LINK/FORMAT statement or TAXA block that is cut "
+               "short cannot return: with termination it is a parse error), nexus_matrix_dims (one MATRIX call; not lifted to the final result), "
+               "charset_positions_in_range; eof_is_parse_error (dichotomy ok / parse error on every text); newick_steps_linear and "
+               "reader_loop_rounds_linear are about ghost counters defined next to run/iter in the Props file (the driver does not count).  "
+               "Not proved: dimensions of the matrices readNexus finally returns; in-range indices of the NEXUS matrix rows (getD defaults); "
+               "the 'no AttributeError/IndexError' clause for the implementation itself is evaluated by the oracle.")
 
 ROUTES = {
     "newick": ["treelist", "treelist", "treelist", "tree", "dataset"],
@@ -882,14 +885,23 @@ def judge(ctx, dendropy, case, st, complete_valid=False):
 
 # ====================================================================== comparison with the Lean model
 def canon_tree(tree):
-    """order-revealing nested rendering: labels (hex), taxon labels (hex), has-length + value as repr(float)"""
-    def go(nd):
-        kids = "".join(go(c) for c in nd._child_nodes)
+    """order-revealing nested rendering: labels (hex), taxon labels (hex), has-length + value as repr(float); iterative,
+    so that deeply nested trees are rendered without recursion"""
+    out = []
+    stack = [(tree.seed_node, 0)]
+    while stack:
+        nd, state = stack.pop()
+        if state == 1:
+            out.append(")")
+            continue
         lab = hex6(nd.label) if nd.label is not None else "-"
         tax = hex6(nd.taxon.label) if nd.taxon is not None else "-"
         ln = "N" if nd.edge.length is None else repr(float(nd.edge.length))
-        return "(%s|%s|%s%s)" % (lab, tax, ln, kids)
-    return go(tree.seed_node)
+        out.append("(%s|%s|%s" % (lab, tax, ln))
+        stack.append((nd, 1))
+        for c in reversed(nd._child_nodes):
+            stack.append((c, 0))
+    return "".join(out)
 
 
 LEN_RE = re.compile(r"\|L([0-9a-f=]*)")
@@ -1091,6 +1103,7 @@ def special_cases(ctx, dendropy, st):
         ("newick", "(a,b));"), ("newick", "((a,b);"), ("newick", "(a,b);x"), ("newick", "(a:1:2,b);"), ("newick", "(a,a);"),
         ("newick", "(a,b)c d;"), ("newick", "(a:x,b);"), ("newick", "'a"), ("newick", "[&R"), ("newick", "(a,b)(c,d);"),
         ("newick", "(" * 60 + "a" + ")" * 60 + ";"), ("newick", "(" * 200 + "a" + ")" * 200 + ";"),
+        ("newick", "(" * 600 + "a" + ")" * 600 + ";"),      # well inside the interpreter's recursion limit: must be read
         ("newick", "(" * (3 * lim) + "a" + ")" * (3 * lim) + ";"),
         ("newick", "[c] " * (2 * lim) + "(a,b);"), ("newick", "[c]\n" * (2 * lim) + "(a,b);"),
         ("newick", "(a" + ",[c] " * (2 * lim) + "b);"),
@@ -1132,7 +1145,7 @@ def special_cases(ctx, dendropy, st):
 def run(ctx):
     dendropy = __import__("dendropy")
     rng = ctx.rng
-    ctx.set_budget(32, 780)
+    ctx.set_budget(27, 780)
     st = State()
     special_cases(ctx, dendropy, st)
     flush(ctx, st)
